@@ -30,6 +30,12 @@ class Layout:
         self.style = style
         self.nl = "\r\n" if style == "crlf" else "\n"
         self.trigger_used = False          # a block comment with a newline followed by '/' was printed
+        # "twin" mode (see checks/c10_parser.py): the same random choices, but the two known-finding families are
+        # neutralised — nothing but blanks is written after an action type and the braces of literal-brace
+        # actions are replaced by parentheses
+        self.neutral = False
+        self.at_layout_used = []           # (dialect, text) written between an action type and its line end / colon
+        self.pre_action_layout = 0         # productions with blanks/comments between the last item and '{'
 
     # ---- comments ---------------------------------------------------------
     PC = {"dense": (0, 0), "airy": (0, 0), "comments": (.45, .15), "crlf": (.2, .1), "multibyte": (.45, .15),
@@ -100,6 +106,49 @@ class Layout:
             t = " "
         return t
 
+    # ---- layout after an action type (known finding C10-actiontype-layout) ----
+    def after_type(self, dialect):
+        """text between an action type and the end of its line (%actiontype, dialect 'O') / its colon
+        (Grmtools rule, dialect 'G').  Blanks before a Grmtools colon are trimmed by the parser; everything
+        else written here is outside what the parser treats as layout.  The same number of random draws in
+        both modes."""
+        r = self.rng
+        k = r.random()
+        bl = r.choice([" ", "  ", "\t", " \t "])
+        cm = r.choice(["/* c */", "/**/", "/* the value */", "/* a::b */", "// c", "// the value", "//"])
+        colon_cm = r.choice(["// x: y", "/* a:b */", "// note: the value"])
+        if self.style == "dense":
+            return ""
+        if dialect == "O":
+            if k < 0.78:
+                t = ""
+            elif k < 0.86:
+                t = bl
+            elif k < 0.97:
+                t = r.choice(["", " ", bl]) + cm
+            else:
+                t = bl + cm + ("" if cm.startswith("//") else bl)
+            if self.neutral:
+                return ""
+        else:
+            if k < 0.85:
+                t = r.choice(["", " ", "  ", "\t"])
+            elif k < 0.97:
+                t = bl + cm + (self.nl + bl if cm.startswith("//") else r.choice(["", " ", bl]))
+            else:
+                t = bl + colon_cm + (self.nl + bl if colon_cm.startswith("//") else " ")
+            if self.neutral:
+                return "".join(c for c in t if c in " \t") if t.strip(" \t") == "" else ""
+        if t.strip(" \t") != "" or (dialect == "O" and t != ""):
+            self.at_layout_used.append((dialect, t))
+        return t
+
+    def pre_action(self):
+        """extra layout between the last item of a production and the brace of its action"""
+        r = self.rng
+        return r.choice(["   ", "\t", self.nl + "    ", " /* c */ ", "   /* build the pair */" + self.nl + "    ",
+                         " // c" + self.nl, "/**/", " /* { */ ", "  // }" + self.nl + "  "])
+
     # ---- quoting ----------------------------------------------------------
     def quote_token(self, name, can_bare):
         """concrete spelling of token `name`; returns (text, offset of the name inside text)"""
@@ -125,6 +174,118 @@ TOKEN_NAMES = ["+", "-", "*", "/", "(", ")", "==", "<", "a b", "é", "→", "{",
 TYPES = ["u64", "Result<u64, ()>", "Vec<Span>", "std::vec::Vec<u8>", "()", "(u8, u8)", "Option<&'input str>", "é::T", "a::b::C<d::E>"]
 ACTIONS = ["", "$1", "Ok($1? + $3?)", "{ }", "{{}}", "if x { 1 } else { 2 }", "é", "\"→\"", "$1 /* c */", "// c\n$2",
            "a\nb", "a\r\nb", "vec![]", "'x'", "x;y|z", "%%", "\U0001F600", "$lexer.span_str($1.unwrap().span())", "a  b"]
+# valid Rust whose braces are inside string / char literals or comments.  ACTIONS_LIT_UNBAL: not balanced when
+# every brace character is counted (known finding C10-action-literal-brace); ACTIONS_LIT_BAL: balanced either way
+# (controls: these must round trip).
+ACTIONS_LIT_UNBAL = ['"{".to_string()', '"}".to_string()', "'{'", "'}'", "b'{' as u32", "1 // }\n+ 2", "1 // {\n+ 2",
+                     "/* { */ 1", "/* } */ 1", 'r#"}"#.len()', '"\\"{"', "x.push('}'); x", "match c { '{' => 1, _ => 0 }",
+                     'format!("{{")', '"}{"', "/* /* { */ */ 1", "'\\u{7b}'.len_utf8() + \"{\".len()"]
+ACTIONS_LIT_BAL = ['format!("{}", $1)', '"{ }"', "('{', '}')", "// { }\n1", "/* {} */ 1", 'r#"{}"#', "'\\u{7b}'"]
+
+
+def naive_brace_ok(a):
+    """braces balance when every '{' / '}' character is counted (YpRoundSpec.brace_ok 0 a)"""
+    d = 0
+    for c in a:
+        if c == "{":
+            d += 1
+        elif c == "}":
+            if d == 0:
+                return False
+            d -= 1
+    return d == 0
+
+
+def rust_brace_ok(a):
+    """braces balance when Rust string literals ("..", r#".."#, b".."), char literals ('x', '\\x', '\\u{..}', b'x'; not
+    lifetimes), // comments and (nested) /* */ comments are skipped.  True / False, or None when this conservative
+    scanner cannot delimit a literal or comment (then nothing is claimed)."""
+    i, d, n = 0, 0, len(a)
+    ident = "abcdefghijklmnopqrstuvwxyzABCDEFGHIJKLMNOPQRSTUVWXYZ_0123456789"
+    while i < n:
+        c = a[i]
+        if a.startswith("//", i):
+            j = a.find("\n", i)
+            i = n if j < 0 else j + 1
+            continue
+        if a.startswith("/*", i):
+            depth, i = 1, i + 2
+            while i < n and depth:
+                if a.startswith("/*", i):
+                    depth, i = depth + 1, i + 2
+                elif a.startswith("*/", i):
+                    depth, i = depth - 1, i + 2
+                else:
+                    i += 1
+            if depth:
+                return None
+            continue
+        prev_ident = i > 0 and a[i - 1] in ident
+        if c in "rb" and not prev_ident:
+            # r"..", r#".."#, br".." ; b".." ; b'x'
+            j = i + 1
+            if c == "b" and j < n and a[j] == "r":
+                j += 1
+            if (c == "r" or j > i + 1) and j < n and a[j] in '#"':
+                h = 0
+                while j < n and a[j] == "#":
+                    h, j = h + 1, j + 1
+                if j < n and a[j] == '"':
+                    e = a.find('"' + "#" * h, j + 1)
+                    if e < 0:
+                        return None
+                    i = e + 1 + h
+                    continue
+            if c == "b" and i + 1 < n and a[i + 1] in "\"'":
+                i += 1
+                c = a[i]
+        if c == '"':
+            i += 1
+            while i < n and a[i] != '"':
+                i += 2 if a[i] == "\\" else 1
+            if i >= n:
+                return None
+            i += 1
+            continue
+        if c == "'":
+            if i + 1 < n and a[i + 1] == "\\":
+                e = a.find("'", i + 3)
+                if e < 0:
+                    return None
+                i = e + 1
+                continue
+            if i + 2 < n and a[i + 2] == "'":
+                i += 3
+                continue
+            i += 1          # a lifetime / loop label
+            continue
+        if c == "{":
+            d += 1
+        elif c == "}":
+            if d == 0:
+                return False
+            d -= 1
+        i += 1
+    return d == 0
+
+
+def literal_brace_action(a):
+    """the known class: legal Rust (balanced once literals/comments are skipped) that the parser's plain count rejects"""
+    return a is not None and not naive_brace_ok(a) and rust_brace_ok(a) is True
+
+
+def neutralised(a):
+    return a.replace("{", "(").replace("}", ")") if not naive_brace_ok(a) else a
+
+
+def strip_type_comments(t):
+    """an action type with /* */ and // comments removed and the result trimmed (blanks only)"""
+    import re
+    t = re.sub(r"/\*.*?\*/", "", t, flags=re.S)
+    t = re.sub(r"//[^\r\n]*", "", t)
+    return t.strip(" \t\r\n")
+
+
 EPPS = ["x", "an integer", "é", "it's", 'say "hi"', "→ arrow", "a'b\"c", "%", "/* c */", "// c", "\U0001F600", " "]
 PROGRAMS = ["", "fn main() {}", "x", "é\n// trailing", "%% more", "a\r\nb", "fn f() { /* c */ }\n"]
 
@@ -186,6 +347,8 @@ def random_grammar(rng, size=None):
                     syms.append(("T", rng.choice(tokens)))
             prec = rng.choice(prec_toks) if prec_toks and rng.random() < 0.25 else None
             action = rng.choice(ACTIONS) if rng.random() < (0.7 if kind == "G" else 0.4) else None
+            if action is not None and rng.random() < 0.03:
+                action = rng.choice(ACTIONS_LIT_UNBAL + ACTIONS_LIT_BAL)
             prods.append({"syms": syms, "prec": prec, "action": action,
                           "empty_kw": (not syms) and rng.random() < 0.5})
         rules.append({"name": rn, "actiont": rng.choice(TYPES) if kind == "G" else None, "prods": prods})
@@ -330,6 +493,7 @@ def render(ag, lay):
             o.w("%actiontype")
             o.w(lay.gap(True, newline_ok=False))
             o.w(ag["actiontype"])
+            o.w(lay.after_type("O"))        # blanks / a comment here are NOT layout to the parser (known finding)
             o.w(lay.nl)                     # the value runs to the end of the line
             o.w(lay.gap(False))
         elif d[0] == "parse_param":
@@ -357,6 +521,7 @@ def render(ag, lay):
                 seen_token(n, sp[0], sp[1])
                 exp[key][n] = sp
             o.w(lay.gap(True, must_newline=True))
+    exp["pp_pos"] = o.pos                  # where the declarations end
     o.w("%%")
     o.w(lay.gap(False))
     # ---- rules ---------------------------------------------------------------
@@ -375,7 +540,7 @@ def render(ag, lay):
             o.w("->")
             o.w(lay.gap(False))
             o.w(r["actiont"])
-            o.w(rng.choice(["", " ", "  ", "\t"]) if lay.style != "dense" else "")
+            o.w(lay.after_type("G"))        # blanks are trimmed; a comment is kept in the type (known finding)
         else:
             o.w(lay.gap(False))
         o.w(":")
@@ -429,13 +594,18 @@ def render(ag, lay):
             act = None
             act_brace = None
             if p["action"] is not None:
+                if items and lay.style != "dense" and rng.random() < 0.35:
+                    o.w(lay.pre_action())
+                if items and o.pos > items[-1][1]:
+                    lay.pre_action_layout += 1
+                atext = neutralised(p["action"]) if lay.neutral else p["action"]
                 act_brace = o.pos
                 pad1 = rng.choice(["", " ", "\n", "\t ", "  "]) if lay.style != "dense" else ""
                 pad2 = rng.choice(["", " ", "\n", " \t"]) if lay.style != "dense" else ""
                 o.w("{" + pad1)
                 s = o.pos
-                o.w(p["action"])
-                act = (p["action"], (s, o.pos), pad1, o.pos + blen(pad2))
+                o.w(atext)
+                act = (atext, (s, o.pos), pad1, o.pos + blen(pad2))
                 o.w(pad2 + "}")
                 o.w(lay.gap(False))
             term = o.pos
@@ -534,7 +704,7 @@ def parse_transcript(line):
 ASSOC = {"left": "L", "right": "R", "nonassoc": "N"}
 
 
-def oracle(text, exp, tr):
+def oracle(text, exp, tr, prod_span_fixed=True):
     """list of (class, detail) differences between what the text denotes (exp)
     and what the implementation built (tr = parsed transcript).  Classes:
     'result' (not OK), 'content' (names/order/symbols/...), 'span' (a span does
@@ -566,7 +736,7 @@ def oracle(text, exp, tr):
             if a["pidxs"] != e["pidxs"]:
                 d.append(("content", "rule %s productions %r expected %r" % (a["name"], a["pidxs"], e["pidxs"])))
             if a["actiont"] != e["actiont"]:
-                d.append(("content", "rule %s action type %r expected %r" % (a["name"], a["actiont"], e["actiont"])))
+                d.append(("actiontype", "rule %s action type %r expected %r" % (a["name"], a["actiont"], e["actiont"])))
             if a["span"] != e["span"]:
                 d.append(("span", "rule %s span %r selects %r" % (a["name"], a["span"], sel(a["span"]))))
     # productions
@@ -591,12 +761,14 @@ def oracle(text, exp, tr):
             elif ea is not None and a["action"][1] != ea[1]:
                 d.append(("action-span", "production %d action span %r selects %r, the action text %r is at %r"
                           % (pi, a["action"][1], sel(a["action"][1]), ea[0], ea[1])))
-            # production span: starts at the first item, ends between the end of the last item
-            # and the start of what follows (action or terminator)
+            # production span: starts at the first item and ends where the last item (%empty, symbol,
+            # %prec TOKEN) ends, with or without an action (/repo 69c4b9b; before it an action's brace
+            # ended the span); without items it is empty, at the action's brace / the terminator
             s, en = a["span"]
             items = e["items"]
             if items:
-                ok = s == items[0][0] and items[-1][1] <= en <= e["after"]
+                end = items[-1][1] if (prod_span_fixed or ea is None) else e["after"]
+                ok = s == items[0][0] and en == end
             else:
                 ok = s == en and s <= e["after"] and (en == e["after"])
             if not ok:
